@@ -58,6 +58,7 @@ type Contract struct {
 	Modifies []Clause // expressions naming the cells a call may modify; nil+!Pure => everything reachable
 	ModSet   bool
 	Notes    []string
+	Stable   []string // parameters (pointers to structs) whose own cells no callee modifies
 }
 
 type LetDecl struct {
@@ -262,6 +263,8 @@ func parseContractFile(path string) (*ContractFile, error) {
 			for _, d := range strings.Fields(rest) {
 				cur.Dead[d] = true
 			}
+		case "stable":
+			cur.Stable = append(cur.Stable, strings.Fields(rest)...)
 		case "fresh":
 			cur.Fresh = append(cur.Fresh, strings.Fields(rest)...)
 		case "site":
